@@ -282,6 +282,10 @@ AGG_CELLS = {
     'Other!A1': 10, 'Other!A2': 20, 'Other!B1': 1000, 'Other!B2': 2000, 'V1': '=SUM(Other!A1:A2,B1:B2)', 'V2': '=SUM(B1:B2,Other!A1:A2)',
     'V3': '=MAX(Other!A1:A2)+B1', 'V4': '=SUM(Other!A1:A2)+SUM(B1:B2)', 'V5': '=AVERAGE(Other!A1:A2,B1)', 'V6': '=SUM(Other!A1:A2,B1,B2)',
     'V7': '=MIN(Other!A1:B2,B1:B4)', 'V8': '=COUNT(Other!A1:A2,B1:B4,E1:E4)',
+    # boolean constants elsewhere in the workbook next to the numbers 1 / 0 / 1.0 inside the ranges; the same formula text on two sheets
+    'W1': 1, 'W2': 2, 'W3': 3, 'X1': 0, 'X2': 5, 'X3': 1.0, 'Y1': True, 'Y2': False, 'Z1': '=IF(Y1,COUNT(W1:W3),-1)', 'Z2': '=IF(Y1,AVERAGE(W1:W3),-1)',
+    'Z3': '=IF(Y2,-1,MIN(X1:X3))', 'Z4': '=MAX(X1:X3)+COUNT(X1:X3)', 'Z5': '=IF(Y1,SUM(W1:W3),0)+IF(Y2,0,COUNT(W1:X3))',
+    'K1': '=SUM(A1:A2)+MAX(B1:B2)', 'Other!K1': '=SUM(A1:A2)+MAX(B1:B2)', 'K2': '=AVERAGE(A1:B2)', 'Other!K2': '=AVERAGE(A1:B2)',
     'H1': '=SUM(D1:D2,D3)', 'H2': '=MAX(D1:D3)', 'H3': '=AVERAGE(D1:D3)', 'H4': '=MIN(D1:D3)+COUNT(D1:D3)',
 }
 AGG_EXPECTED = {
@@ -289,6 +293,7 @@ AGG_EXPECTED = {
     'T7': -3, 'T8': 7, 'U1': 65.25, 'U2': '#VALUE!', 'U3': 2.5 * 7 - 3,
     'L1': 2 ** 63, 'L2': 2 ** 63, 'L3': 2 ** 63 + 999, 'L4': 2 ** 63 + 999, 'L5': 2 ** 63 + 999, 'L6': 2 ** 63 - 1,
     'U4': -3.5, 'U5': '#VALUE!', 'U6': -3.5, 'U7': 5, 'V1': 29.5, 'V2': 29.5, 'V3': 22.5, 'V4': 29.5, 'V5': 32.5 / 3, 'V6': 29.5, 'V7': -3, 'V8': 8,
+    'Z1': 3, 'Z2': 2, 'Z3': 0, 'Z4': 8, 'Z5': 12, 'K1': 6.5, 'Other!K1': 2030, 'K2': 3.5 / 4, 'Other!K2': 3030 / 4,
     'H1': 13, 'H2': 14, 'H3': 13 / 3, 'H4': -3,
 }
 
@@ -303,18 +308,33 @@ def rule_7(ctx):
     anchor = V_registered(ctx, 'SUM')
     wb = W.Workbook(ctx, AGG_CELLS)
     for a, w in AGG_EXPECTED.items():
-        got = wb.value('Sheet1!' + a)
+        got = wb.value(a if '!' in a else 'Sheet1!' + a)
         if isinstance(got, tuple) and got and got[0] == 'error-class':
             got = ('error', W.error_code(ctx, got[1]))
         ctx.expect(S.same(got, _as_value(w)), anchor, f'aggregate workbook: {a} = {AGG_CELLS[a]}',
                    f'{a} = {AGG_CELLS[a]} evaluates to {got!r}, expected {w!r}: the fold of exactly the addressed values - blanks and texts of a range '
                    'ignored, a stored 0 counted, however the cells are split into ranges and scalars and whatever their magnitude')
+    # numbers 1 / 0 / 1.0 and the booleans TRUE / FALSE in one workbook, read in either order, in and outside the ranges
+    typed = {'W1': 1, 'W2': 2, 'W3': 3, 'X1': 0, 'X2': 5, 'X3': 1.0, 'Y1': True, 'Y2': False, 'V1': 1, 'V2': True, 'V3': 2, 'V4': False, 'V5': 0,
+             'Z1': '=IF(Y1,COUNT(W1:W3),-1)', 'Z2': '=IF(Y1,AVERAGE(W1:W3),-1)', 'Z3': '=IF(Y2,-1,MIN(X1:X3))', 'Z4': '=MAX(X1:X3)+COUNT(X1:X3)',
+             'Z5': '=COUNT(V1:V5)', 'Z6': '=COUNTA(V1:V5)', 'Z7': '=MIN(V1:V5)+MAX(V1:V5)', 'Z8': '=AVERAGE(V1:V5)', 'Z9': '=COUNT(W1:W3)+COUNT(X1:X3)'}
+    twant = {'Z1': 3, 'Z2': 2, 'Z3': 0, 'Z4': 8, 'Z5': 3, 'Z6': 5, 'Z7': 2, 'Z8': 1, 'Z9': 6}
+    for oname, order in (('Z1 first', list(twant)), ('Z9 first', list(reversed(list(twant)))), ('the boolean cells first', ['Y1', 'Y2'] + list(twant)),
+                         ('the number cells first', ['W1', 'X1', 'X3', 'V1', 'V5'] + list(twant))):
+        wbt = W.Workbook(ctx, typed)
+        for a in order:
+            got = wbt.value('Sheet1!' + a)
+            if a not in twant:
+                continue
+            ctx.expect(S.same(got, _as_value(twant[a])), anchor, f'booleans next to equal numbers ({oname}): {typed[a]}',
+                       f'{a} = {typed[a]} evaluates to {got!r} when the cells are read with {oname}, expected {twant[a]!r} (W = 1, 2, 3; X = 0, 5, 1.0; Y = TRUE, FALSE; '
+                       'V = 1, TRUE, 2, FALSE, 0): a number is a number and a boolean a boolean whatever was read before')
     steps = [('eval', 'H1'), ('eval', 'H2'), ('eval', 'S1'), ('set', 'B2', 40), ('eval', 'D2'), ('eval', 'H1'), ('eval', 'H2'), ('eval', 'H3'), ('eval', 'S1'),
              ('eval', 'T2'), ('set', 'A1', -100), ('eval', 'S1'), ('eval', 'T2'), ('eval', 'T1'), ('eval', 'H4'), ('set', 'B3', 0), ('eval', 'H1'), ('eval', 'U1')]
     hist = {k: v for k, v in AGG_CELLS.items() if k[0] in 'ABD' or k in ('H1', 'H2', 'H3', 'H4', 'S1', 'T2', 'T1', 'U1')}
     S.check_history(ctx, anchor, 'aggregate history', hist, steps, cache={}, check_stored=False,
                     why='An aggregate is the fold of the values its cells hold now.')
-    ctx.floor(52, 'aggregate cells + history steps')
+    ctx.floor(95, 'aggregate cells + history steps')
 
 
 def V_registered(ctx, name):
